@@ -135,6 +135,10 @@ func RunWorker(id, tier string, shard, nshards int, outPath string) error {
 			if ph.Stateful {
 				ex.selfCheck = 0
 				ex.Repass = 0
+			} else if ph.Serial {
+				// cheap single-process phases: every execution is immediately repeated ("the same call twice
+				// in a row"), which is both the determinism self-check and a probe for last-call memos
+				ex.selfCheck = 1 << 30
 			}
 			ex.Deadline = dl
 			func() {
